@@ -46,7 +46,11 @@ def _fail(hook, what, **witness):
 
 def _rebind(orig, new):
     for name, mod in list(sys.modules.items()):
-        if not name.startswith("nanoemoji") or mod is None:
+        if mod is None:
+            continue
+        if name == "__main__":
+            name = getattr(getattr(mod, "__spec__", None), "name", None) or ""
+        if not name.startswith("nanoemoji"):
             continue
         for attr, val in list(vars(mod).items()):
             if val is orig:
@@ -502,19 +506,37 @@ def _h9(svg_mod):
     _rebind(orig, _create_use_element)
 
 
-def install(only=None):
+def _mod(name):
+    m = sys.modules.get(name)
+    main = sys.modules.get("__main__")
+    if m is None and main is not None and getattr(getattr(main, "__spec__", None), "name", None) == name:
+        m = main
+    return m
+
+
+def install(only=None, loaded_only=False):
+    """Wrap the real functions.  loaded_only: inside a CLI step only modules the step has already imported are
+    touched (importing another step module would define its absl flags twice)."""
     global _INSTALLED
     if _INSTALLED:
         return
     _INSTALLED = True
-    from nanoemoji import colors, config, glyph, glyph_reuse, glyphmap, paint, svg, write_font  # noqa
-
-    _h1(paint)
-    _h7(paint)
-    _h2(glyph_reuse)
-    _h3(write_font)
-    _h4(colors)
-    _h5(config)
-    _h6(glyphmap)
-    _h8(glyph)
-    _h9(svg)
+    if not loaded_only:
+        from nanoemoji import colors, config, glyph, glyph_reuse, glyphmap, paint, svg, write_font  # noqa
+    for name, fn in (
+        ("nanoemoji.paint", _h1),
+        ("nanoemoji.paint", _h7),
+        ("nanoemoji.glyph_reuse", _h2),
+        ("nanoemoji.write_font", _h3),
+        ("nanoemoji.colors", _h4),
+        ("nanoemoji.config", _h5),
+        ("nanoemoji.glyphmap", _h6),
+        ("nanoemoji.glyph", _h8),
+        ("nanoemoji.svg", _h9),
+    ):
+        m = _mod(name)
+        if m is not None:
+            try:
+                fn(m)
+            except Exception:
+                COUNT["install_error." + name] += 1
